@@ -44,6 +44,11 @@ theorem rowEq_congr_left {a b : Row} (h : rowEq a b = true) (c : Row) : rowEq a 
 theorem rowEq_congr_right {a b : Row} (h : rowEq a b = true) (c : Row) : rowEq c a = rowEq c b := by
   rw [rowEq_symm c a, rowEq_symm c b]; exact rowEq_congr_left h c
 
+theorem recs_map_data (l : List Rec) : recs (l.map .data) = l := by
+  induction l with
+  | nil => rfl
+  | cons r rs ih => simp [recs, ih]
+
 /-! ### signs, weights, signed sums -/
 def sgn (r : Rec) : Int := if r.retr then -1 else 1
 
